@@ -28,7 +28,7 @@ def declare(rep):
              "so floor((max - min)/size) is one past the end whenever the extent is a multiple of the voxel size)", floor=12)
     rep.rule("C20.free-layer", "the region grid of the polarizer extends at least two voxel sizes beyond the node extrema on every side: its ray marching steps from a "
              "voxel that holds a node to the next one without a bounds test, and with ceil(extent/size) voxels one voxel of margin leaves no free layer when the extent is a multiple of the voxel size", floor=6)
-    rep.rule("C20.extent-covers-placed", "the region grid of the polarizer is dimensioned from the same set of points that is later placed into it (every slot of every cell's node list, free slots included)", floor=6)
+    rep.rule("C20.extent-covers-placed", "the region grid of the polarizer is dimensioned from the same set of points that is later placed into it (the used nodes of every cell; an extent merged from cell::get_aabb() counts when only used nodes are placed)", floor=6)
     rep.rule("C20.closed-box", "no entry point of the grids rejects, skips or answers empty for a coordinate on a face of the declared box: a range test on a coordinate against min_/max_ of its axis that survives NDEBUG states the closed interval [min, max]", floor=4)
     rep.rule("C20.query-fresh", "get_neighborhood / get_grid_content answer from the voxels as they are at the call: every returned list is a local filled during the call (or the result of another query), never a data member kept from an earlier call", floor=4)
     rep.rule("C20.update-dimensions", "update_dimensions assigns counts, origin and extent axis-consistently and sizes the storage with nx*ny*nz", floor=2)
@@ -900,6 +900,17 @@ def extent_covers_placed(rep, prog):
         updates = [n for n in walk(ext["body"]) if n.get("k") in ("BinaryOperator",) and n.get("op") == "=" and strip(n["c"][0]).get("k") == "DeclRefExpr" and strip(n["c"][0])["ref"].get("did") == did
                    and fe.enclosing(n, ("CXXForRangeStmt", "ForStmt", "WhileStmt")) is not None]
         why = None
+        # the extent taken from cell::get_aabb() of every cell (the extrema over the USED nodes of the cell, C12.aabb) covers the
+        # points placed when only used nodes are placed
+        from ..model import def_chain as _dc, facts_at as _fa
+        via_aabb = [u_ for u_ in updates if any(is_call(x) and x.get("callee") == "cell::get_aabb" for d_ in _dc(ext, u_["c"][1], depth=4) for x in walk(d_))]
+        placed_used_only = any(a_.get("k") == "CXXMemberCallExpr" and a_.get("callee") == "node::is_used" and t_ for a_, t_ in _fa(plc, fp, places[0]))
+        if updates and len(via_aabb) == len(updates) and placed_used_only:
+            u = updates[0]
+            ranges, conds = source(fe, u)
+            if ranges and ranges[-1] == p_ranges[-1] and not conds:
+                rep.ok(rule, prog, ext, a, "%s bound of axis %s: merged from cell::get_aabb() of every cell of %s (extrema over the used nodes); only used nodes are placed" % (side, axis, p_ranges[-1]))
+                continue
         if not updates:
             why = "it is not updated inside a loop over the points"
         else:
